@@ -28,14 +28,14 @@ def _poly(mode):
             if mode == "C01":
                 return [{"harness": "poly", "args": ["--mode", mode, "--depth", "3", "--pool", "24"], "budget": 330},
                         {"harness": "poly", "args": d3 + ["--depth", "2", "--pool", "24"], "budget": 240},
-                        {"harness": "poly", "args": nar + ["--depth", "4", "--pool", "12"], "budget": 240}]
+                        {"harness": "poly", "args": nar + ["--depth", "5", "--pool", "12"], "budget": 240}]
             return [{"harness": "poly", "args": ["--mode", mode, "--depth", "2", "--pool", "36"], "budget": 330},
                     {"harness": "poly", "args": d3 + ["--depth", "1", "--pool", "16"], "budget": 240},
                     {"harness": "poly", "args": nar + ["--followups", "--depth", "4", "--pool", "4", "--poolsigs", "1", "--reps-per-sig", "6"], "budget": 330}]
         if mode == "C01":
             return [{"harness": "poly", "args": ["--mode", mode, "--depth", "3", "--all-states"], "budget": 3000},
                     {"harness": "poly", "args": d3 + ["--depth", "3"], "budget": 3000},
-                    {"harness": "poly", "args": nar + ["--depth", "5", "--pool", "24"], "budget": 3000}]
+                    {"harness": "poly", "args": nar + ["--depth", "5", "--pool", "24", "--all-states"], "budget": 3000}]
         return [{"harness": "poly", "args": ["--mode", mode, "--depth", "3"], "budget": 3000},
                 {"harness": "poly", "args": d3 + ["--depth", "2", "--pool", "24"], "budget": 3000},
                 {"harness": "poly", "args": nar + ["--followups", "--depth", "5", "--pool", "8", "--reps-per-sig", "12"], "budget": 3000}]
